@@ -44,9 +44,31 @@ Theorem C22_int_view : forall p v b, (2 <= p)%Z -> (0 <= v < p)%Z -> (to_int b p
 Proof. exact int_view. Qed.
 Print Assumptions C22_int_view.
 
+(** pickle: __reduce__ recreates the field from (p, n, root); with GF() reducing w modulo p before the cached
+    pGF call this is the same cache key (hence the same class object) as the creating call, for EVERY w;
+    GF((p,n,w)) and GF((p,n,w mod p)) share the key; the state restores the value *)
+Theorem C22_pickle_same_field : forall p n w v, (p <> 0)%Z ->
+  pickle_roundtrip true p n w v = (gf_key true p n w, v) /\
+  gf_key true p n w = gf_key true p n (w mod p)%Z.
+Proof. exact pickle_same_field. Qed.
+Print Assumptions C22_pickle_same_field.
+
+(** without that normalisation (the code before /repo 35f6b0f) the statement is false: w = -1, p = 7 gives another key *)
+Theorem C22_pickle_unnormalised_refuted :
+  exists p n w v, (p <> 0)%Z /\ fst (pickle_roundtrip false p n w v) <> gf_key false p n w.
+Proof. exact pickle_unnormalised_refuted. Qed.
+Print Assumptions C22_pickle_unnormalised_refuted.
+
+Theorem C22_pickle_unnormalised_iff : forall p n w v, (p <> 0)%Z ->
+  (fst (pickle_roundtrip false p n w v) = gf_key false p n w <-> (w mod p = w)%Z).
+Proof. exact pickle_unnormalised_iff. Qed.
+Print Assumptions C22_pickle_unnormalised_iff.
+
 (** Non-vacuity: GF(257) has byte_length 2; [256; 0; 1] <-> 00 01 00 00 01 00; signed 200 = -57. *)
 Example C22_nonvacuous :
   byte_length 257 = 2 /\ to_bytes 2 [256; 0; 1]%Z = Some [0; 1; 0; 0; 1; 0]%Z /\
   from_bytes 2 [0; 1; 0; 0; 1; 0]%Z = [256; 0; 1]%Z /\ to_bytes 2 [] = Some [] /\ from_bytes 2 [] = [] /\
-  signed 257 200 = (-57)%Z /\ signed 257 128 = 128%Z /\ signed 2 1 = 1%Z /\ to_bytes 1 [256]%Z = None.
+  signed 257 200 = (-57)%Z /\ signed 257 128 = 128%Z /\ signed 2 1 = 1%Z /\ to_bytes 1 [256]%Z = None /\
+  pickle_roundtrip true 7 2 (-1) 3 = ((7, 2, 6), 3)%Z /\ gf_key true 7 2 (-1) = (7, 2, 6)%Z /\
+  pickle_roundtrip false 7 2 (-1) 3 = ((7, 2, 6), 3)%Z /\ gf_key false 7 2 (-1) = (7, 2, -1)%Z.
 Proof. vm_compute. repeat split. Qed.
